@@ -635,7 +635,7 @@ func poolCount(p *config.Pool) (int64, int64, int64) {
 		}
 		sz := int64(math.Pow(2, float64(b-o)))
 
-		cur := ipaddr.NewCursor([]ipaddr.Prefix{*ipaddr.NewPrefix(cidr)})
+		cur := ipaddr.NewCursor([]ipaddr.Prefix{*prefixFor(cidr)})
 		firstIP := cur.First().IP
 		lastIP := cur.Last().IP
 
@@ -674,6 +674,15 @@ func saturatingAdd(a, b int64) int64 {
 		return math.MaxInt64
 	}
 	return a + b
+}
+
+// prefixFor returns the ipaddr.Prefix of cidr. ipaddr.NewPrefix rewrites the IP of the
+// net.IPNet it is given to its 16 byte form: it must not be handed the CIDRs of the
+// configuration, or the configuration kept by the reconcilers stops being equal to a
+// freshly parsed one and every event looks like a configuration change.
+func prefixFor(cidr *net.IPNet) *ipaddr.Prefix {
+	n := *cidr
+	return ipaddr.NewPrefix(&n)
 }
 
 // poolFor returns the pool that owns the requested IPs, or "" if none.
@@ -715,7 +724,7 @@ func (a *Allocator) getIPFromCIDR(cidr *net.IPNet, avoidBuggyIPs bool, svc strin
 		sharing: sharingKey,
 		backend: backendKey,
 	}
-	c := ipaddr.NewCursor([]ipaddr.Prefix{*ipaddr.NewPrefix(cidr)})
+	c := ipaddr.NewCursor([]ipaddr.Prefix{*prefixFor(cidr)})
 	for pos := c.First(); pos != nil; pos = c.Next() {
 		if avoidBuggyIPs && ipConfusesBuggyFirmwares(pos.IP) {
 			continue
